@@ -29,6 +29,7 @@ import (
 	"io"
 	"math/big"
 	"net"
+	"reflect"
 	"strings"
 	"sync"
 	"testing"
@@ -264,11 +265,12 @@ type c41srv struct {
 	chacha   bool   // Rule.Chacha20
 	poodle   bool   // Config.Ssl3PoodleProofed
 	ticket   bool   // session tickets enabled
+	p256     bool   // Config.CurvePreferences = [P-256] instead of the default P-256/384/521
 }
 
 func (s c41srv) String() string {
-	return fmt.Sprintf("min=%04x,max=%04x,ec=%v,ss=%d,rev=%v,pref=%d,np=%d,rnp=%d,gr=%s,cha=%v,poo=%v,tk=%v",
-		s.min, s.max, s.ec, s.suites, s.rev, s.pref, s.np, s.rnp, s.grade, s.chacha, s.poodle, s.ticket)
+	return fmt.Sprintf("min=%04x,max=%04x,ec=%v,ss=%d,rev=%v,pref=%d,np=%d,rnp=%d,gr=%s,cha=%v,poo=%v,tk=%v,p256=%v",
+		s.min, s.max, s.ec, s.suites, s.rev, s.pref, s.np, s.rnp, s.grade, s.chacha, s.poodle, s.ticket, s.p256)
 }
 
 func (s c41srv) menu() []uint16 {
@@ -322,6 +324,9 @@ func (s c41srv) config() *Config {
 	} else {
 		cfg.Certificates = []Certificate{c41rsaCert}
 	}
+	if s.p256 {
+		cfg.CurvePreferences = []CurveID{CurveP256}
+	}
 	if s.suites >= 0 {
 		cfg.CipherSuites = c41maskList(s.menu(), s.suites, s.rev)
 	}
@@ -364,6 +369,7 @@ type c41obs struct {
 	cResumed bool
 	sData    string // "" = 1 KiB client->server arrived intact at the server and reply written
 	cData    string // "" = 1 KiB server->client arrived intact at the client
+	cTicket  bool   // the (hand-marshalled) client received a NewSessionTicket
 }
 
 var c41msgC, c41msgS = func() ([]byte, []byte) {
@@ -378,9 +384,9 @@ var c41msgC, c41msgS = func() ([]byte, []byte) {
 func c41eq(a, b []byte) bool { return string(a) == string(b) }
 
 // c41serve runs the real server side on conn.
-func c41serve(conn net.Conn, cfg *Config, o *c41obs) {
+func c41serve(conn net.Conn, mk func(net.Conn) *Conn, o *c41obs) {
 	defer conn.Close()
-	s := Server(conn, cfg)
+	s := mk(conn)
 	var err error
 	if p, val := vk.Guard(func() { err = s.Handshake() }); p {
 		o.sPanic = val
@@ -417,11 +423,70 @@ const c41caseDeadline = 30 * time.Second
 
 // c41handshake runs one connection: server and client goroutines over a fresh pipe.
 func c41handshake(cfg *Config, client c41clientFn) *c41obs {
+	return c41handshakeVia(func(conn net.Conn) *Conn { return Server(conn, cfg) }, client)
+}
+
+// configuration life cycle: how the Config a connection is served with was produced
+const (
+	c41lifeOriginal = iota // the Config as built
+	c41lifeClone           // Config.Clone()
+	c41lifeRotate1         // real listener (NewListener / Accept) after one session-ticket-key reload
+	c41lifeRotate2         // ... after two reloads (clone of a clone)
+	c41lifeCount
+)
+
+var c41lifeNames = []string{"original", "clone", "ticket-key-reload", "ticket-key-reload-x2"}
+
+type c41inner struct{ ch chan net.Conn }
+
+func (l *c41inner) Accept() (net.Conn, error) { return <-l.ch, nil }
+func (l *c41inner) Close() error              { return nil }
+func (l *c41inner) Addr() net.Addr            { return c41addr("10.0.0.1:443") }
+
+// c41served returns the connection factory for cfg in the given life-cycle stage. The reload
+// stages repeat the steps of bfe_server.HttpsListener.UpdateSessionTicketKey on the real
+// bfe_tls listener: Clone, copy key name and key, UpdateListener; connections then come out of
+// the listener's Accept.
+func c41served(cfg *Config, life int) func(net.Conn) *Conn {
+	switch life {
+	case c41lifeOriginal:
+		return func(conn net.Conn) *Conn { return Server(conn, cfg) }
+	case c41lifeClone:
+		cl := cfg.Clone()
+		return func(conn net.Conn) *Conn { return Server(conn, cl) }
+	}
+	inner := &c41inner{ch: make(chan net.Conn, 1)}
+	ln := NewListener(inner, cfg)
+	cur := cfg
+	for i := 0; i <= life-c41lifeRotate1; i++ {
+		key := make([]byte, 48)
+		for j := range key {
+			key[j] = byte(0x90 + 16*i + j)
+		}
+		config := cur.Clone()
+		copy(config.SessionTicketKeyName[:], key[:16])
+		copy(config.SessionTicketKey[:], key[16:])
+		cur = config
+		if err := UpdateListener(ln, config); err != nil {
+			panic(err)
+		}
+	}
+	return func(conn net.Conn) *Conn {
+		inner.ch <- conn
+		c, err := ln.Accept()
+		if err != nil {
+			panic(err)
+		}
+		return c.(*Conn)
+	}
+}
+
+func c41handshakeVia(mk func(net.Conn) *Conn, client c41clientFn) *c41obs {
 	o := &c41obs{}
 	cc, sc := c41pipe()
 	var wg sync.WaitGroup
 	wg.Add(2)
-	go func() { defer wg.Done(); c41serve(sc, cfg, o) }()
+	go func() { defer wg.Done(); c41serve(sc, mk, o) }()
 	go func() { defer wg.Done(); defer cc.Close(); client(cc, o) }()
 	done := make(chan struct{})
 	go func() { wg.Wait(); close(done) }()
@@ -732,6 +797,7 @@ func c41rawClient(hello *clientHelloMsg, session *ClientSessionState, out **Clie
 		if out != nil {
 			*out = sess
 		}
+		o.cTicket = sess != nil
 		o.cDone = true
 		o.cVers, o.cSuite, o.cProto, o.cResumed = c.vers, c.cipherSuite, c.clientProtocol, c.didResume
 		if _, err := c.Write(c41msgC); err != nil {
@@ -1093,6 +1159,144 @@ func (x *c41ctx) runRaw2(fam string, s1, s2 c41srv, c c41hcli) {
 	}
 }
 
+// runLife: the same client hello against the configuration in every life-cycle stage. Each
+// connection is judged by the oracle against the specification (a clone must serve what was
+// configured), and differentially: the outcome against a clone / reloaded configuration must
+// equal the outcome against the original one.
+func c41lifeKey(o *c41obs) string {
+	return fmt.Sprintf("%s|sdone=%v,%s,%04x,%q|cdone=%v|ticket=%v", c41class(o), o.sDone, c41vname(o.sVers), o.sSuite, o.sProto, o.cDone, o.cTicket)
+}
+
+func (x *c41ctx) runLife(fam string, s c41srv, std *c41cli, raw *c41hcli) {
+	id := fam + "|" + s.String() + "|"
+	if std != nil {
+		id += std.String()
+	} else {
+		id += raw.String()
+	}
+	if !x.next(id) {
+		return
+	}
+	var ref string
+	for life := 0; life < c41lifeCount; life++ {
+		cfg := s.config()
+		var cl c41clientFn
+		if std != nil {
+			cl = c41stdClient(std.config(s.menu()))
+		} else {
+			cl = c41rawClient(raw.hello(s.menu(), true), nil, new(*ClientSessionState))
+		}
+		o := c41handshakeVia(c41served(cfg, life), cl)
+		x.record(id, s, life+1, o)
+		if o.timeout {
+			return
+		}
+		k := c41lifeKey(o)
+		if life == 0 {
+			ref = k
+		} else if k != ref {
+			x.r.Violation("lifecycle:"+c41lifeNames[life]+":outcome-differs-from-original:"+c41lifeDiffClass(ref, k), id,
+				fmt.Sprintf("served configuration %s: %s; original configuration: %s [server %s]", c41lifeNames[life], k, ref, s))
+		}
+		x.r.Add("sum_lifecycle_connections", 1)
+	}
+}
+
+// c41lifeDiffClass names what differs (coarse, for the signature).
+func c41lifeDiffClass(a, b string) string {
+	pa, pb := strings.Split(a, "|"), strings.Split(b, "|")
+	names := []string{"outcome", "server-params", "client-done", "ticket"}
+	for i := range pa {
+		if i < len(pb) && pa[i] != pb[i] {
+			return names[i]
+		}
+	}
+	return "other"
+}
+
+type c41stubMultiCert struct{}
+
+func (c41stubMultiCert) Get(c *Conn) *Certificate { return nil }
+
+type c41stubSrvCache struct{}
+
+func (c41stubSrvCache) Get(string) ([]byte, bool) { return nil, false }
+func (c41stubSrvCache) Put(string, []byte) error  { return nil }
+
+// fields of Config whose loss in Clone changes what the server negotiates
+var c41negFields = map[string]bool{"Certificates": true, "NameToCertificate": true, "MultiCert": true, "NextProtos": true,
+	"ClientAuth": true, "ClientCAs": true, "CipherSuites": true, "CipherSuitesPriority": true, "PreferServerCipherSuites": true,
+	"Ssl3PoodleProofed": true, "SessionTicketsDisabled": true, "SessionTicketKey": true, "SessionTicketKeyName": true,
+	"ServerSessionCache": true, "SessionCacheDisabled": true, "MinVersion": true, "MaxVersion": true, "CurvePreferences": true,
+	"EnableSslv2ClientHello": true, "ServerRule": true}
+
+// c41cloneFields: Clone() of a Config whose every exported field is non-zero, compared field by
+// field by reflection.
+func (x *c41ctx) cloneFields() {
+	id := "K0|clone-fields"
+	if !x.next(id) {
+		return
+	}
+	c41keys()
+	cfg := &Config{
+		Rand:                     rand.Reader,
+		Time:                     time.Now,
+		Certificates:             []Certificate{c41rsaCert},
+		NameToCertificate:        map[string]*Certificate{"c41.test": &c41rsaCert},
+		MultiCert:                c41stubMultiCert{},
+		RootCAs:                  x509.NewCertPool(),
+		NextProtos:               []string{"h2"},
+		ServerName:               "c41.test",
+		ClientAuth:               RequestClientCert,
+		ClientCAs:                x509.NewCertPool(),
+		InsecureSkipVerify:       true,
+		CipherSuites:             []uint16{TLS_RSA_WITH_AES_128_CBC_SHA},
+		CipherSuitesPriority:     []uint16{0},
+		PreferServerCipherSuites: true,
+		Ssl3PoodleProofed:        true,
+		SessionTicketsDisabled:   true,
+		SessionTicketKey:         [32]byte{1},
+		SessionTicketKeyName:     [16]byte{2},
+		ClientSessionCache:       NewLRUClientSessionCache(1),
+		ServerSessionCache:       c41stubSrvCache{},
+		SessionCacheDisabled:     true,
+		MinVersion:               VersionTLS11,
+		MaxVersion:               VersionTLS11,
+		CurvePreferences:         []CurveID{CurveP384},
+		EnableSslv2ClientHello:   true,
+		ServerRule:               c41rules{},
+	}
+	cl := cfg.Clone()
+	a, b := reflect.ValueOf(cfg).Elem(), reflect.ValueOf(cl).Elem()
+	for i := 0; i < a.NumField(); i++ {
+		f := a.Type().Field(i)
+		if f.PkgPath != "" {
+			continue // unexported (serverInitOnce): deliberately not copied
+		}
+		fa, fb := a.Field(i), b.Field(i)
+		if fa.IsZero() {
+			x.t.Logf("C41 note: Config field %s was not given a non-zero value by the harness (new field?)", f.Name)
+			x.r.Outcome("clone-fields:unpopulated-field")
+			continue
+		}
+		same := false
+		if f.Type.Kind() == reflect.Func {
+			same = fa.Pointer() == fb.Pointer()
+		} else {
+			same = reflect.DeepEqual(fa.Interface(), fb.Interface())
+		}
+		switch {
+		case same:
+			x.r.Outcome("clone-fields:copied")
+		case c41negFields[f.Name]:
+			x.r.Violation("lifecycle:clone:field-not-copied:"+f.Name, id, fmt.Sprintf("Config.Clone() does not carry over %s (original %v, clone %v)", f.Name, fa.Interface(), fb.Interface()))
+		default:
+			x.r.Outcome("clone-fields:non-negotiation-field-not-copied")
+			x.t.Logf("C41 note: Config.Clone() does not copy %s (does not influence server negotiation; not judged)", f.Name)
+		}
+	}
+}
+
 // ---------------------------------------------------------------------------------------------
 // families
 
@@ -1131,6 +1335,81 @@ func TestVerifC41(t *testing.T) {
 		if stop() {
 			return
 		}
+	}
+
+	// Family K — configuration life cycle: the configuration a connection is served with is the
+	// original Config, its Clone(), or what the real listener serves after one / two
+	// session-ticket-key reloads (the steps of HttpsListener.UpdateSessionTicketKey). K0 Clone()
+	// field by field; K1 every version range x client max / hello version x grade; K2 suite
+	// lists x preference modes x order; K3 protocol lists on the Config and on the rule; K4 the
+	// remaining knobs (Ssl3PoodleProofed with SSL3.0, CurvePreferences x client curves, tickets
+	// on/off, Rule.Chacha20).
+	x.cloneFields()
+	for _, rg := range c41ranges() {
+		for _, g := range []string{"", GradeB, GradeA} {
+			sni := 0
+			if g != "" {
+				sni = 1
+			}
+			s := base
+			s.min, s.max, s.grade = rg[0], rg[1], g
+			for _, cmax := range stdMax {
+				x.runLife("K1", s, &c41cli{max: cmax, suites: allRSA, alpn: h2http, sni: sni}, nil)
+			}
+			for _, hv := range []uint16{VersionSSL30, VersionTLS10, VersionTLS11, VersionTLS12} {
+				x.runLife("K1", s, nil, &c41hcli{vers: hv, suites: allRSA, alpn: h2http, sni: sni, resume: 1})
+			}
+		}
+	}
+	if stop() {
+		return
+	}
+	{
+		kmasks := []int{-1}
+		for m := 0; m <= allRSA; m++ {
+			if thorough || m&3 == 0 { // quick: subsets of {ECDHE-CBC, ECDHE-RC4, RSA-CBC, RSA-RC4}
+				kmasks = append(kmasks, m)
+			}
+		}
+		for _, m := range kmasks {
+			for pref := 0; pref <= 2; pref++ {
+				for _, rev := range []bool{false, true} {
+					s := base
+					s.suites, s.pref, s.rev = m, pref, rev
+					x.runLife("K2", s, &c41cli{max: stdtls.VersionTLS12, suites: allRSA, alpn: h2http}, nil)
+					x.runLife("K2", s, nil, &c41hcli{vers: VersionTLS10, suites: allRSA, rev: true, alpn: h2http, resume: 1})
+				}
+			}
+		}
+	}
+	for np := range c41protoLists {
+		for _, ca := range []int{c41protoIdx("h2", "http/1.1"), c41protoIdx("http/1.1", "spdy/3.1", "h2"), c41protoIdx("spdy/3.1"), 0} {
+			s := base
+			s.np = np
+			x.runLife("K3", s, &c41cli{max: stdtls.VersionTLS12, suites: allRSA, alpn: ca}, nil)
+			s = base
+			s.rnp, s.np, s.grade = np, c41protoIdx("spdy/3.1"), GradeC
+			x.runLife("K3", s, &c41cli{max: stdtls.VersionTLS12, suites: allRSA, alpn: ca, sni: 1}, nil)
+		}
+	}
+	for _, on := range []bool{false, true} {
+		s := base
+		s.poodle = on
+		x.runLife("K4", s, nil, &c41hcli{vers: VersionSSL30, suites: allRSA, alpn: h2http, resume: 1})
+		s = base
+		s.p256 = on
+		for cv := range c41stdCurves {
+			x.runLife("K4", s, &c41cli{max: stdtls.VersionTLS12, suites: allRSA, curves: cv, alpn: h2http}, nil)
+		}
+		s = base
+		s.ticket = on
+		x.runLife("K4", s, nil, &c41hcli{vers: VersionTLS12, suites: allRSA, alpn: h2http, resume: 1})
+		s = base
+		s.grade, s.chacha = GradeC, on
+		x.runLife("K4", s, &c41cli{max: stdtls.VersionTLS12, suites: 1<<1 | 1<<4, alpn: h2http, sni: 1}, nil)
+	}
+	if stop() {
+		return
 	}
 
 	// Family A — ALPN: every ordered server list x every ordered client list over three protocols
